@@ -177,3 +177,55 @@ package websocket
 //@     invariant WsWired(c) && !holds(c.mux) && allocator == c.Engine.BodyAllocator && !c.gSent1009
 //@     invariant frame == nil && message == nil && protocolMessage == nil && !isProtocolMessage && err == nil
 //@     invariant limit(c) > 0 && c.gRMsg != 0 ==> len(box(c.gRMsg, "[]byte")) <= limit(c)
+
+// ---- sending
+//@ ghost local Conn.gFrames : Int
+//@ ghost local Conn.gSentBytes : Int
+//@ func compressWriter
+//@   trusted
+//@   ensures result != nil
+//@   assigns allocates
+//@ fieldfunc nbhttp/websocket.commonFields.WebsocketCompressor
+//@   params c w level
+//@   ensures result != nil
+//@   assigns allocates
+//@ pred SendKeeps(c *Conn) := WsWired(c) && c.Engine.MaxWebsocketFramePayloadSize == old(c.Engine.MaxWebsocketFramePayloadSize) && c.commonFields == old(c.commonFields) && c.closed == old(c.closed) && c.bytesCached == old(c.bytesCached) && c.message == old(c.message) && c.msgType == old(c.msgType) && c.expectingFragments == old(c.expectingFragments) && c.compress == old(c.compress) && holds(c.mux) == old(holds(c.mux))
+//@ iface io.WriteCloser.Write
+//@   note a flate writer feeding a writeBuffer: allocates and grows buffers of its own only
+//@   ensures forall q int :: old(liveP[q]) ==> liveP[q]
+//@   ensures forall wb *writeBuffer :: wb.pbuf == old(wb.pbuf) || fresh(wb.pbuf)
+//@   assigns liveP, writeBuffer.pbuf, allboxes("[]byte"), allelems("byte"), allocates
+//@ func (*writeBuffer).Close
+//@   trusted
+//@   ensures forall q int :: q != old(w.pbuf) && old(liveP[q]) ==> liveP[q]
+//@   assigns liveP, w.pbuf
+//@ func (*Conn).WriteMessage$1
+//@   inline
+
+//@ func (*Conn).WriteMessage
+//@   props C15 C13 C14
+//@   safety index slice nil div assert panic make lock
+//@   requires WsWired(c) && !holds(c.mux) && c.Engine.MaxWebsocketFramePayloadSize > 0
+//@   ensures ctlbig: isCtl(messageType) && len(data) > 125 ==> result != nil && c.gFrames == 0       // prop C15 C13
+//@   ensures unlocked: !holds(c.mux)                                                                  // prop C14
+//@   assigns everything
+//@   at entry ghost { c.gFrames = 0 }
+//@   at before:writeFrame#1 assert locked: holds(c.mux)                                               // prop C14
+//@   at before:writeFrame#2 assert locked: holds(c.mux)                                               // prop C14
+//@   at call:writeFrame#1 ghost { c.gFrames = c.gFrames + 1 }
+//@   at call:writeFrame#2 ghost { c.gFrames = c.gFrames + 1 }
+//@   loop 1
+//@     invariant holds(c.mux) && WsWired(c) && c.Engine.MaxWebsocketFramePayloadSize > 0 && len(data) >= 0
+//@     invariant isCtl(messageType) ==> len(data) <= 125
+//@     invariant !c.closed ==> WsOwn(c)
+//@ func (*Conn).writeFrame
+//@   trusted
+//@   havoc
+//@   requires holds(c.mux)
+//@   ensures SendKeeps(c)
+//@   ensures forall q int :: old(liveP[q]) ==> liveP[q]
+//@ iface io.WriteCloser.Close
+//@   note closing a flate writer flushes into its writeBuffer
+//@   ensures forall q int :: old(liveP[q]) ==> liveP[q]
+//@   ensures forall wb *writeBuffer :: wb.pbuf == old(wb.pbuf) || fresh(wb.pbuf)
+//@   assigns liveP, writeBuffer.pbuf, allboxes("[]byte"), allelems("byte"), allocates
